@@ -408,6 +408,155 @@ def evaluate(case):
         shutil.rmtree(d, ignore_errors=True)
 
 
+# ----------------------------------------------------------------------------------
+# labels files spanning several videos of different size (only LabelsReader can read them): frames of different
+# eff_scale share a batch, so per-frame bookkeeping of eff_scale / orig_size inside the batching loop matters
+
+
+def _view(case, v):
+    return dict(case, kind="single", image="ramp", h=case["videos"][v]["h"], w=case["videos"][v]["w"], frames=[f["animals"] for f in case["videos"][v]["frames"]])
+
+
+def evaluate_multi(case):
+    import imageio.v3 as iio
+    import numpy as np
+    import sleap_io as sio
+    from omegaconf import OmegaConf
+    from sleap_nn.inference.predictors import SingleInstancePredictor
+    from vlib.nets import RampNet
+
+    res = Result()
+    nv = len(case["videos"])
+    views = [_view(case, v) for v in range(nv)]
+    for vw in views:
+        if border_margin_violated(vw):
+            res.rejected = True
+            res.cls("rejected:keypoint-too-close-to-border")
+            return res
+    d = env.scratch_dir("c02m")
+    try:
+        try:
+            sio.set_default_image_plugin("imageio")
+        except Exception:  # noqa: BLE001
+            pass
+        n = case["n_nodes"]
+        names = [f"n{i}" for i in range(n)]
+        skel = sio.Skeleton(nodes=names, edges=[(names[i], names[i + 1]) for i in range(n - 1)])
+        gt, videos, lf_by_gid = {}, [], {}
+        for v, vd in enumerate(case["videos"]):
+            paths = []
+            for k, fr in enumerate(vd["frames"]):
+                img = synth.ramp_image(vd["h"], vd["w"], "rgb")
+                img[..., 2] = RampNet.level(fr["gid"])
+                p = os.path.join(d, f"v{v}_f{k:03d}.png")
+                iio.imwrite(p, img)
+                paths.append(p)
+                gt[fr["gid"]] = fr["animals"]
+            videos.append(sio.Video.from_filename(paths))
+        for v, vd in enumerate(case["videos"]):
+            for k, fr in enumerate(vd["frames"]):
+                pts = np.array([[math.nan, math.nan] if q is None else q for q in fr["animals"][0]], dtype=np.float64).reshape(n, 2)
+                lf_by_gid[fr["gid"]] = sio.LabeledFrame(video=videos[v], frame_idx=k, instances=[sio.Instance.from_numpy(points_data=pts, skeleton=skel)])
+        lfs = [lf_by_gid[g] for g in case["order"]]
+        labels = sio.Labels(labeled_frames=lfs, videos=videos, skeletons=[skel])
+        slp = os.path.join(d, "labels.slp")
+        labels.save(slp, embed=False)
+        s_tots = [case["scale"] * sizematch(vw["h"], vw["w"], case["max_h"], case["max_w"])[0] for vw in views]
+        net = RampNet(gt, case["stride"], stage_sigma(case["stride"], min(s_tots)), "single", n)
+        cfg = OmegaConf.create({
+            "data_config": {"preprocessing": {"scale": case["scale"], "is_rgb": True, "max_height": case["max_h"], "max_width": case["max_w"]}},
+            "model_config": {"backbone_config": {"unet": {"max_stride": case["max_stride"]}},
+                             "head_configs": {"single_instance": {"confmaps": {"output_stride": case["stride"], "part_names": names}}}},
+        })
+
+        def run():
+            pred = SingleInstancePredictor(confmap_config=cfg, confmap_model=net, backbone_type="unet", skeletons=[skel], peak_threshold=0.2,
+                                           integral_refinement=case["refinement"], integral_patch_size=5, batch_size=case["batch"])
+            pred._initialize_inference_model()
+            pred.make_pipeline("LabelsReader", slp, queue_maxsize=4)
+            return pred.predict(make_labels=False)
+
+        out = runner.guarded(res, "multi-video:LabelsReader:predict", run)
+        if out is runner.FAILED:
+            return res
+        recs = {}
+        for o in out:
+            for j in range(len(o["frame_idx"])):
+                recs.setdefault((int(o["video_idx"][j]), int(o["frame_idx"][j])), []).append(
+                    (o["pred_instance_peaks"][j].reshape(-1, 2), o["pred_peak_values"][j].reshape(-1), [int(x) for x in o["orig_size"][j].reshape(-1)]))
+        res.n_evals = 0
+        for v, vd in enumerate(case["videos"]):
+            tol, _ = tolerance(views[v], "single")
+            # sigma is set for the coarsest video; finer ones see a wider bump (<= 2 cells): same half-cell bound
+            for k, fr in enumerate(vd["frames"]):
+                res.n_evals += 1
+                got = recs.get((v, k), [])
+                if len(got) != 1:
+                    res.fail("multi-video:record-count", f"video {v} frame {k}: {len(got)} records")
+                    continue
+                g = got[0]
+                if g[2][:2] != [vd["h"], vd["w"]]:
+                    res.fail("multi-video:orig-size", f"video {v} frame {k}: orig_size {g[2]} expected {[vd['h'], vd['w']]}")
+                for i, q in enumerate(fr["animals"][0]):
+                    if q is None:
+                        if not np.isnan(g[0][i]).all() or g[1][i] != 0:
+                            res.fail("multi-video:invisible-not-nan", f"video {v} frame {k} node {i}: {g[0][i].tolist()} value {float(g[1][i])}")
+                    elif np.isnan(g[0][i]).any():
+                        res.fail("multi-video:visible-lost", f"video {v} frame {k} node {i} at {q} returned NaN")
+                    else:
+                        err = max(abs(g[0][i][0] - q[0]), abs(g[0][i][1] - q[1]))
+                        if err > tol:
+                            res.fail("multi-video:coordinate-error:" + ("gross" if err > 3 * tol + 2 else "cell"),
+                                     f"video {v} ({vd['h']}x{vd['w']}) frame {k} node {i}: returned {np.round(g[0][i], 2).tolist()} for keypoint {q}: error {err:.2f} > tol {tol:.2f}; "
+                                     f"order={case['order']} batch={case['batch']} max_hw={[case['max_h'], case['max_w']]} scale={case['scale']}")
+        effs = {round(sizematch(vw["h"], vw["w"], case["max_h"], case["max_w"])[0], 6) for vw in views}
+        res.nontrivial = len(effs) >= 2 and case["batch"] >= 2
+        res.cls("multi-video", f"mv:videos={nv}", f"mv:batch={case['batch']}", "mv:mixed-eff" if len(effs) >= 2 else "mv:same-eff")
+        res.n_evals = max(1, res.n_evals)
+        return res
+    finally:
+        shutil.rmtree(d, ignore_errors=True)
+
+
+def strategy_multi():
+    from hypothesis import strategies as st
+
+    @st.composite
+    def case(draw):
+        scale, stride = draw(st.sampled_from([(sc, sd) for sc in (1.0, 0.5, 0.75) for sd in (1, 2, 4)]))
+        nv = draw(st.integers(2, 3))
+        sizes = []
+        for _ in range(nv):
+            sizes.append((draw(st.integers(30, 60)) * 4, draw(st.integers(30, 60)) * 4))
+        mode = draw(st.sampled_from(["max", "max", "bigger", "smaller"]))
+        mh, mw = max(s[0] for s in sizes), max(s[1] for s in sizes)
+        if mode == "bigger":
+            mh, mw = mh + draw(st.integers(4, 40)), mw + draw(st.integers(4, 40))
+        elif mode == "smaller":
+            mh, mw = mh - draw(st.integers(4, 40)), mw - draw(st.integers(4, 40))
+        n_nodes = draw(st.integers(2, 4))
+        base = {"scale": scale, "stride": stride, "max_h": mh, "max_w": mw, "kind": "single", "scale2": 1.0, "stride2": 1}
+        videos, gid = [], 0
+        for (h, w) in sizes:
+            m = border_margin(dict(base, h=h, w=w)) + 0.5
+            frames = []
+            for _ in range(draw(st.integers(1, 2))):
+                pts = []
+                for i in range(n_nodes):
+                    pts.append([round(draw(st.floats(m, max(m + 0.01, w - 1 - m))), 2), round(draw(st.floats(m, max(m + 0.01, h - 1 - m))), 2)])
+                if draw(st.integers(0, 2)) == 0:
+                    keep = draw(st.integers(0, n_nodes - 1))
+                    pts = [q if (i == keep or draw(st.booleans())) else None for i, q in enumerate(pts)]
+                frames.append({"gid": gid, "animals": [pts]})
+                gid += 1
+            videos.append({"h": h, "w": w, "frames": frames})
+        order = list(draw(st.permutations(list(range(gid)))))
+        return dict(base, videos=videos, order=order, n_nodes=n_nodes, max_stride=draw(st.sampled_from([1, 16, 32])),
+                    refinement=draw(st.sampled_from([None, "integral"])), batch=draw(st.sampled_from([1, 2, 3, 4, 4])), image="ramp", blob_sigma=2.0)
+
+    return case()
+
+
 def _cfg(case):
     return {k: v for k, v in case.items() if k != "frames"}
 
@@ -580,6 +729,9 @@ def parts(tier):
     return [
         Part(name="predictor", evaluate=evaluate, strategy=lambda: strategy(tier), summarize=summarize,
              budget={"quick": 160, "thorough": 8000}, min_nontrivial={"quick": 20, "thorough": 1000}),
+        Part(name="multi-video", evaluate=evaluate_multi, strategy=strategy_multi,
+             summarize=lambda c: {k: v for k, v in c.items()},
+             budget={"quick": 60, "thorough": 3000}, min_nontrivial={"quick": 10, "thorough": 500}),
     ]
 
 
